@@ -3,6 +3,7 @@
 -/
 import BorshModel.Theorems.C01
 import BorshModel.Lemmas.Safe
+import BorshModel.Lemmas.ReverseMain
 namespace Borsh
 
 /-- (⇐) every valid encoding is accepted and yields the value the specification assigns -/
@@ -10,6 +11,83 @@ theorem C04_valid_accepted_partial (st : Bool) (t : Ty) (v : Val) (bs : Bytes)
     (hp : keysOk t = true) (hw : WfTy t = true) (hv : HasTy t v = true) (he : toVec t v = .ok bs) :
     fromSlice st t bs = .ok (canon t v) :=
   C01_roundtrip_partial t hp hw st v bs hv he
+
+/-- (⇒, stream form) strict mode: whatever `deserialize` accepts is the encoding of the
+well-typed value it returns, followed by exactly the bytes it leaves.  `revTy` excludes index
+collections (finding F6) and init hooks; sets, maps, deques, skipped fields are included. -/
+theorem C04_deserialize_reencodes (t : Ty) (hr : revTy t = true) (hw : WfTy t = true)
+    (bs rest : Bytes) (v : Val) (h : deserialize true t bs = .ok (v, rest)) :
+    HasTy t v = true ∧ ∃ enc, toVec t v = .ok enc ∧ enc ++ rest = bs := by
+  obtain ⟨ht, hok, hb⟩ := reverse_all t hr hw bs v rest h
+  refine ⟨ht, (ser t v).bytes, ?_, hb⟩
+  unfold toVec
+  unfold Tr.Ok at hok
+  simp [hok]
+
+/-- (⇒) strict mode: **every accepted byte string re-serializes to exactly itself** -/
+theorem C04_accepted_reencodes (t : Ty) (hr : revTy t = true) (hw : WfTy t = true)
+    (bs : Bytes) (v : Val) (h : fromSlice true t bs = .ok v) :
+    HasTy t v = true ∧ toVec t v = .ok bs := by
+  unfold fromSlice at h
+  obtain ⟨⟨w, rest⟩, h1, h2⟩ := Out.bind_eq_ok_iff.mp h
+  dsimp only at h2
+  split at h2
+  · rename_i he
+    simp only [Out.ok.injEq] at h2
+    subst h2
+    have hrest : rest = [] := by
+      cases rest with
+      | nil => rfl
+      | cons a as => simp at he
+    subst hrest
+    obtain ⟨ht, enc, he1, he2⟩ := C04_deserialize_reencodes t hr hw bs [] w h1
+    simp only [List.append_nil] at he2
+    exact ⟨ht, by rw [he1, he2]⟩
+  · simp at h2
+
+/-- **A byte string is accepted (strict mode) iff it is the encoding of some value of the
+type** — both directions, every `revTy ∧ keysOk` well-formed type. -/
+theorem C04_accepts_iff_valid (t : Ty) (hr : revTy t = true) (hk : keysOk t = true)
+    (hw : WfTy t = true) (bs : Bytes) :
+    (∃ v, fromSlice true t bs = .ok v) ↔ (∃ v, HasTy t v = true ∧ toVec t v = .ok bs) := by
+  constructor
+  · rintro ⟨v, h⟩; exact ⟨v, C04_accepted_reencodes t hr hw bs v h⟩
+  · rintro ⟨v, hv, he⟩; exact ⟨canon t v, C01_roundtrip_partial t hk hw true v bs hv he⟩
+
+/-- **Strict-mode bijection**: `fromSlice` and `toVec` are mutually inverse between accepted
+byte strings and canonical well-typed values. -/
+theorem C04_strict_bijection (t : Ty) (hr : revTy t = true) (hk : keysOk t = true)
+    (hw : WfTy t = true) (bs : Bytes) (v : Val) :
+    fromSlice true t bs = .ok v ↔ (HasTy t v = true ∧ canon t v = v ∧ toVec t v = .ok bs) := by
+  constructor
+  · intro h
+    obtain ⟨ht, he⟩ := C04_accepted_reencodes t hr hw bs v h
+    have h' := C01_roundtrip_partial t hk hw true v bs ht he
+    rw [h] at h'
+    simp only [Out.ok.injEq] at h'
+    exact ⟨ht, h'.symm, he⟩
+  · rintro ⟨ht, hc, he⟩
+    have := C01_roundtrip_partial t hk hw true v bs ht he
+    rw [hc] at this; exact this
+
+/-- two byte strings accepted with the same value are the same string (strict mode) -/
+theorem C04_decode_injective (t : Ty) (hr : revTy t = true) (hw : WfTy t = true)
+    (b1 b2 : Bytes) (v : Val) (h1 : fromSlice true t b1 = .ok v) (h2 : fromSlice true t b2 = .ok v) :
+    b1 = b2 := by
+  have e1 := (C04_accepted_reencodes t hr hw b1 v h1).2
+  have e2 := (C04_accepted_reencodes t hr hw b2 v h2).2
+  rw [e1] at e2
+  simpa using e2
+
+/-- non-vacuity: a type with a hash map, an ordered set, a deque, an option and a skipped field
+meets all three hypotheses -/
+example :
+    let t := Ty.prod (.struct [83] false)
+      [(some [97], false, .map .hashMap (.str .string) (.set .btreeSet (.int .u16))),
+       (some [98], true, .int .u32),
+       (some [99], false, .seq .vecDeque (Ty.sum .option [([78], 0, []), ([83], 1, [(none, false, .bool)])]))]
+    (revTy t && keysOk t && WfTy t) = true := by
+  decide +kernel
 
 /-- a tag byte other than 0/1 is never accepted for `bool` -/
 theorem C04_bool_tag (st : Bool) (b : UInt8) (rest : Bytes) (h0 : b ≠ 0) (h1 : b ≠ 1) :
